@@ -1,14 +1,18 @@
 package main
 
 import (
-	stderrors "errors"
+	"bufio"
 	"encoding/json"
+	stderrors "errors"
 	"flag"
 	"fmt"
 	"math"
 	"os"
+	"os/exec"
 	"path/filepath"
+	"runtime/debug"
 	"strings"
+	"syscall"
 	"time"
 
 	"github.com/Vedant9500/WTF/internal/database"
@@ -16,7 +20,10 @@ import (
 	"github.com/Vedant9500/WTF/internal/recovery"
 )
 
-func init() { commands["total-run"] = totalRun }
+func init() {
+	commands["total-run"] = totalRun
+	commands["total-child"] = totalChild
+}
 
 type totScen struct {
 	Shape string `json:"shape"`
@@ -174,7 +181,7 @@ func optionsOf(class string, i int) database.SearchOptions {
 	o := database.SearchOptions{Limit: 5, UseFuzzy: i%2 == 0, UseNLP: i%3 == 0}
 	switch class {
 	case "limits":
-		o.Limit = []int{-5, 0, 1, 1000000000, math.MinInt32}[i%5]
+		o.Limit = []int{-5, 0, 1, 1000000000, math.MinInt32, 1 << 62, math.MaxInt64, math.MinInt64}[i%8]
 	case "thresholds":
 		o.UseFuzzy = true
 		o.FuzzyThreshold = []int{-1000000000, 1000000000, -1, 1}[i%4]
@@ -256,9 +263,6 @@ func totalRun(args []string) int {
 	w := newTraceWriter(*out)
 	dir, _ := os.MkdirTemp("", "vh-total")
 	defer os.RemoveAll(dir)
-	devnull, _ := os.OpenFile(os.DevNull, os.O_WRONLY, 0)
-	realOut := os.Stdout
-	os.Stdout = devnull // the recovery search prints warnings
 	groups := map[string][]totScen{}
 	var order []string
 	readJSONLines(*in, func(raw []byte) {
@@ -277,54 +281,134 @@ func totalRun(args []string) int {
 		}
 		groups[k] = append(groups[k], s)
 	})
+	self, _ := os.Executable()
 	tr := 0
 	for _, k := range order {
 		g := groups[k]
-		shape, text := g[0].Shape, g[0].Text
-		p := makeFile(dir, shape, text)
-		var db *database.Database
-		var lerr error
-		tr++
-		ev := &totEv{Op: "load", Tr: tr, Shape: shape, Text: text}
-		ev.Outcome, ev.Note, ev.MS = guarded(func() { db, lerr = database.LoadDatabase(p) })
-		if ev.Outcome == "returned" {
-			ev.Outcome = classifyLoadErr(lerr)
-			if lerr != nil {
-				ev.Note = lerr.Error()
-				if len(ev.Note) > 200 {
-					ev.Note = ev.Note[:200]
+		skip := 0
+		loadDone := false
+		for skip <= len(g) {
+			// one child per group; restarted after the scenario that killed it
+			gf := filepath.Join(dir, "group.json")
+			b, _ := json.Marshal(g)
+			os.WriteFile(gf, b, 0o644)
+			cmd := exec.Command(self, "total-child", gf, dir, fmt.Sprint(skip), fmt.Sprint(loadDone))
+			var eb strings.Builder
+			cmd.Stderr = &eb
+			po, _ := cmd.StdoutPipe()
+			if err := cmd.Start(); err != nil {
+				fatal("cannot start child: %v", err)
+			}
+			sc := bufio.NewScanner(po)
+			sc.Buffer(make([]byte, 1<<20), 1<<24)
+			n := 0
+			for sc.Scan() {
+				var ev totEv
+				if json.Unmarshal(sc.Bytes(), &ev) != nil {
+					continue
+				}
+				tr++
+				ev.Tr = tr
+				w.emit(&ev)
+				if ev.Op == "load" {
+					loadDone = true
+				} else {
+					n++
 				}
 			}
-		}
-		w.emit(ev)
-		via := "yaml"
-		if db == nil || lerr != nil || len(db.Commands) == 0 {
-			// searches still have to be total on a database holding such texts: build it directly
-			cmd, desc, kws := textsOf(text)
-			db = &database.Database{}
-			for i := 0; i < 4; i++ {
-				db.Commands = append(db.Commands, database.Command{Command: fmt.Sprintf("%s %d", cmd, i), Description: desc, Keywords: kws, Pipeline: i%2 == 0,
-					CommandLower: strings.ToLower(cmd), DescriptionLower: strings.ToLower(desc)})
+			err := cmd.Wait()
+			if err == nil {
+				break
 			}
-			if shape == "emptylist" || shape == "empty" {
-				db.Commands = nil
+			// the child died (fatal error: stack overflow, out of memory, ...): blame the scenario it was working on
+			note := lastLines(eb.String(), 1)
+			if i := strings.Index(eb.String(), "fatal error:"); i >= 0 {
+				note = strings.SplitN(eb.String()[i:], "\n", 2)[0]
 			}
-			via = "direct"
-			guarded(func() { db.BuildUniversalIndex() })
-		}
-		for i, s := range g {
 			tr++
-			ce := &totEv{Op: "call", Tr: tr, Shape: shape, Text: text, Query: s.Query, Opt: s.Opt, Entry: s.Entry, Via: via}
-			q, o := queryOf(s.Query), optionsOf(s.Opt, i)
-			ce.Outcome, ce.Note, ce.MS = guarded(func() { callEntry(db, s.Entry, q, o) })
-			if len(ce.Note) > 300 {
-				ce.Note = ce.Note[:300]
+			if !loadDone {
+				w.emit(&totEv{Op: "load", Tr: tr, Shape: g[0].Shape, Text: g[0].Text, Outcome: "fatal", Note: note})
+				break
 			}
-			w.emit(ce)
+			idx := skip + n
+			if idx >= len(g) {
+				break
+			}
+			w.emit(&totEv{Op: "call", Tr: tr, Shape: g[idx].Shape, Text: g[idx].Text, Query: g[idx].Query, Opt: g[idx].Opt, Entry: g[idx].Entry, Outcome: "fatal", Note: note})
+			skip = idx + 1
 		}
 	}
-	os.Stdout = realOut
 	w.close()
 	fmt.Printf("{\"events\": %d, \"loads\": %d}\n", w.n, len(order))
+	return 0
+}
+
+// totalChild runs one (file shape, text class) group: the load, then every call; events go to stdout, one per line
+func totalChild(args []string) int {
+	gf, dir := args[0], args[1]
+	var skip int
+	fmt.Sscan(args[2], &skip)
+	loadDone := args[3] == "true"
+	debug.SetMaxStack(48 << 20)
+	var lim syscall.Rlimit
+	lim.Cur, lim.Max = 6<<30, 6<<30
+	syscall.Setrlimit(syscall.RLIMIT_AS, &lim)
+	var g []totScen
+	b, _ := os.ReadFile(gf)
+	if err := json.Unmarshal(b, &g); err != nil || len(g) == 0 {
+		return 0
+	}
+	realOut := os.Stdout
+	devnull, _ := os.OpenFile(os.DevNull, os.O_WRONLY, 0)
+	os.Stdout = devnull // the recovery search prints warnings
+	emit := func(ev *totEv) {
+		jb, _ := json.Marshal(ev)
+		realOut.Write(append(jb, '\n'))
+	}
+	shape, text := g[0].Shape, g[0].Text
+	p := makeFile(dir, shape, text)
+	var db *database.Database
+	var lerr error
+	ev := &totEv{Op: "load", Shape: shape, Text: text}
+	ev.Outcome, ev.Note, ev.MS = guarded(func() { db, lerr = database.LoadDatabase(p) })
+	if ev.Outcome == "returned" {
+		ev.Outcome = classifyLoadErr(lerr)
+		if lerr != nil {
+			ev.Note = lerr.Error()
+			if len(ev.Note) > 200 {
+				ev.Note = ev.Note[:200]
+			}
+		}
+	}
+	if !loadDone {
+		emit(ev)
+	}
+	via := "yaml"
+	if db == nil || lerr != nil || len(db.Commands) == 0 {
+		// searches still have to be total on a database holding such texts: build it directly
+		cmd, desc, kws := textsOf(text)
+		db = &database.Database{}
+		for i := 0; i < 4; i++ {
+			db.Commands = append(db.Commands, database.Command{Command: fmt.Sprintf("%s %d", cmd, i), Description: desc, Keywords: kws, Pipeline: i%2 == 0,
+				CommandLower: strings.ToLower(cmd), DescriptionLower: strings.ToLower(desc)})
+		}
+		if shape == "emptylist" || shape == "empty" || shape == "nulldoc" {
+			db.Commands = nil
+		}
+		via = "direct"
+		guarded(func() { db.BuildUniversalIndex() })
+	}
+	for i, s := range g {
+		if i < skip {
+			continue
+		}
+		ce := &totEv{Op: "call", Shape: shape, Text: text, Query: s.Query, Opt: s.Opt, Entry: s.Entry, Via: via}
+		q, o := queryOf(s.Query), optionsOf(s.Opt, i)
+		ce.Outcome, ce.Note, ce.MS = guarded(func() { callEntry(db, s.Entry, q, o) })
+		if len(ce.Note) > 300 {
+			ce.Note = ce.Note[:300]
+		}
+		emit(ce)
+	}
 	return 0
 }
